@@ -258,7 +258,8 @@ def run_case(spec, j):
   P, y = validation_set(rng, est, X, 'random')
   bad = [dict(strategy='foo'), dict(strategy=None)]
   bad += [dict(strategy=s, min_rate=r) for s in ('max_tpr', 'max_tnr')
-          for r in (None, -0.1, 1.1, 'a')]
+          for r in (None, -0.1, 1.1, 'a', float('nan'), np.float64('nan'),
+                    float('inf'), -float('inf'), [0.5], 1 + 0j)]
   bad += [dict(strategy='f_beta', beta=b) for b in (None, 'a')]
   for kw in bad:
     # calibrate_threshold
